@@ -174,6 +174,11 @@ func writesIn(fn *ssa.Function, summ map[*ssa.Function]map[int]bool) []memWrite 
 // mutationSummaries: for each fq function, the indices of parameters (and 1000+k for free
 // variables) through which it may write. Fixed point over static calls and closures.
 func mutationSummaries(p *fw.Program) map[*ssa.Function]map[int]bool {
+	return mutationSummariesWith(p, memRoot)
+}
+
+// mutationSummariesWith is mutationSummaries with a caller-chosen notion of "the memory an address designates".
+func mutationSummariesWith(p *fw.Program, memRoot func(ssa.Value) ssa.Value) map[*ssa.Function]map[int]bool {
 	summ := map[*ssa.Function]map[int]bool{}
 	fns := p.FqFunctions()
 	for changed := true; changed; {
